@@ -811,6 +811,9 @@ Definition oracle_C09 (sc : scase) (log : list ev) : bool :=
   match the_stmt sc with
   | None => true
   | Some s =>
-      let rows := flat_map (fun o => match o with HRow vs => [vs] | _ => [] end) (s_prog s) in
+      (* rows holding a value that has no encoding are rejected by the writer and send nothing *)
+      let rows := flat_map (fun o => match o with
+                                     | HRow vs => if existsb (fun v => match v with VUnenc => true | _ => false end) vs then [] else [vs]
+                                     | _ => [] end) (s_prog s) in
       c9_ok (fold_left (c9_step s rows) (outs log) {| c9_queue := []; c9_left := rows; c9_ok := true |})
   end.
